@@ -59,6 +59,8 @@ def check(prop, tier, res, replay=None):
         profiles = ["mix", "operator", "admit", "lease", "visible"]
         traces, ops, ns = (40, 60, 1) if tier == "quick" else (300, 120, 4)
         jobs = [(p, sd * 100 + k, traces, ops, work) for p in profiles for k in range(ns)]
+        # the long scripted history (hundreds of messages, size-dependent code paths of the stores): few traces
+        jobs += [("bulk", sd * 100 + k, 1, 0, work) for k in range(1 if tier == "quick" else 3)]
         if replay:
             jobs = []
         results = pmap(run_lock, jobs)
